@@ -174,7 +174,7 @@ Proof.
   intros [Hl Hd]. destruct r as [l dots]. cbn [fst snd] in *.
   assert (E : forall b x t, sumZ (bump_head b (x :: t)) = b + sumZ (x :: t)).
   { intros. unfold sumZ. simpl. lia. }
-  unfold row_init, row_bump, row_offset, arange. cbn [fst snd].
+  unfold row_init, row_bump, row_offset, arange, m_fill, m_dot_fill, m_dot_offset. cbn [fst snd].
   replace (Z.to_nat l) with (S (Z.to_nat (l - 1))) by lia.
   destruct Hd as [Hd|[c [Hd Hc]]]; subst dots.
   - cbn [arange_from map existsb]. rewrite E.
@@ -192,7 +192,7 @@ Lemma bumped_row_cumsum r : row_ok r ->
   cumsum_from 0 (bump_head (row_bump r) (row_init r)) = row_powers r.
 Proof.
   intros [Hl Hd]. destruct r as [l dots]. cbn [fst snd] in *.
-  unfold row_init, row_bump, row_offset, row_powers, arange. cbn [fst snd].
+  unfold row_init, row_bump, row_offset, row_powers, arange, m_fill, m_dot_fill, m_dot_offset. cbn [fst snd].
   destruct Hd as [Hd|[c [Hd Hc]]]; subst dots.
   - replace (Z.to_nat l) with (S (Z.to_nat (l - 1))) at 1 by lia.
     cbn [arange_from map]. rewrite cumsum_bump_head.
